@@ -558,7 +558,13 @@ var handlerRegistry = typeRegistry{
 func (reg typeRegistry) characterizeFuncDetails(fm *provider, cc charContext) (*provider, error) {
 	var rejectReasons []string
 	var a testArgs
-	if r, ok := fm.fn.(ReflectiveArgs); ok {
+	r, isReflective := fm.fn.(ReflectiveArgs)
+	if _, isType := fm.fn.(reflect.Type); isType {
+		// a reflect.Type value has the methods of ReflectiveArgs: it is
+		// a value, not the description of a function
+		isReflective = false
+	}
+	if isReflective {
 		a = testArgs{
 			fm:    fm.copy(),
 			t:     wrappedReflective{r},
